@@ -446,8 +446,8 @@ def parseRSCaddyfile (s : String) : Option Load :=
     match rest.span Char.isDigit with
     | (num, [p]) =>
       if num.isEmpty then none
-      else if p == 'd' then some (caddyfileLoad (str (String.ofList rest)) .absent true true)
-      else if p == 'n' then some (caddyfileLoad (str (String.ofList rest)) .off true true)
+      else if p == 'd' then some (caddyfileLoad (str (String.ofList ('c' :: rest))) .absent true true)
+      else if p == 'n' then some (caddyfileLoad (str (String.ofList ('c' :: rest))) .off true true)
       else none
     | _ => none
   | _ => none
@@ -496,6 +496,9 @@ def rsAsLoad (b : Bytes) : Load :=
   match parseRSTok (bytesToString b).toList with
   | some t => t.load true
   | none =>
+    match parseRSCaddyfile (bytesToString b) with
+    | some l => l
+    | none =>
     match loadOfContent b with
     | some l => l
     | none => { cfg := b, force := true, accepted := false, nonNil := true, persistCfg := true, allowPersist := true }
